@@ -103,6 +103,37 @@ def _tacc_one(prog, adt, b):
         key = 'TACC|%s' % short
         own = _own_variant(adt, b.locals[0]['ty'])
         vr = _variant_region(body=b, adt=adt)
+        if own is not None and vr is None:
+            # delegation: `integer()` = `self.decimal()` + a conversion of the payload; it can succeed only where the
+            # accessor it hands self to succeeded, provided that accessor's failure leads only to failure here
+            oid = getattr(b, 'orig_id', b.id)
+            acc_ids = {a.id: a for a in accessors(prog)}
+            dels = []
+            for c in b.live_calls:
+                if c.ruid in acc_ids and c.ruid != oid and c.args:
+                    so = single_origin(trace_operand(b, c.args[0], through_calls=set()))
+                    if so is not None and so.kind == 'param' and so.data == 1 and not so.proj:
+                        dels.append(c)
+            if len(dels) == 1 and _own_variant(adt, acc_ids[dels[0].ruid].locals[0]['ty']) == own:
+                c = dels[0]
+                good = False
+                for sb in sorted(b.live_blocks):
+                    t = b.blocks[sb]['term']
+                    if t['k'] != 'switch':
+                        continue
+                    do = single_origin(trace_operand(b, t['discr'], through_calls=set()))
+                    if do is None or do.kind != 'discr':
+                        continue
+                    xo = single_origin(trace_operand(b, {'k': 'copy', 'pl': do.data[2]['pl']}, through_calls=set())) if isinstance(do.data, tuple) else None
+                    if xo is None or xo.kind != 'callres' or xo.proj or xo.data.bb != c.bb:
+                        continue
+                    err_t = [tb for v, tb in t['targets'] if v == 1] or [t['otherwise']]
+                    okk, why = r_errd.returns_failure_only(b, err_t[0])
+                    good = okk and b.dominates(sb, sb) and all(b.dominates(sb, x) for x in _success_blocks(b, prog))
+                cls, _ = r_errd.consume(b, c)
+                if good or cls in ('try', 'tail'):
+                    obs.append(ok('TACC', key, '%s() hands self to %s() and can succeed only where that succeeded (its failure reaches only failure returns)' % (short, acc_ids[c.ruid].name.split('::')[-1]), b.where()))
+                    return obs
         if own is None or vr is None:
             obs.append(bad('TACC', key, 'accessor %s: cannot determine its own variant / it does not switch on the variant of self' % b.name, b.where(), body=b.name))
             return obs
